@@ -358,8 +358,10 @@ def call_optimal(ctx, s1, s2, sm, gp, terminal, local, max_number):
     ctx.op("align_optimal[%s,%s]" % (mode_of(terminal, local), "affine" if isinstance(gp, tuple) else "linear"))
     ctx.oracle("returns_alignment")
     try:
-        return align.align_optimal(s1, s2, sm, gap_penalty=gp, terminal_penalty=terminal,
-                                   local=local, max_number=max_number)
+        from vf.core import drop_defaults
+        kw = drop_defaults(ctx, dict(gap_penalty=gp, terminal_penalty=terminal, local=local, max_number=max_number),
+                           dict(gap_penalty=-10, terminal_penalty=True, local=False, max_number=1000))
+        return align.align_optimal(s1, s2, sm, **kw)
     except (IndexError, ValueError, TypeError, OverflowError, MemoryError) as e:
         ctx.exc(e)
         ctx.fail("returns_alignment",
